@@ -129,6 +129,22 @@ func rangedSlice(h *ssa.BasicBlock) ssa.Value {
 	if l := lenOf(bin.X); l != nil {
 		return l
 	}
+	// other spellings of the same loop: `i <= len(S)-1`, a hoisted `n := len(S)`, counting down from
+	// len(S)-1 to 0: the counted interval is [0, len(S)-1]
+	if cl := countedLoopAt(h); cl != nil {
+		if k, isC := cl.lo.isConst(); isC && k == 0 {
+			top := cl.hi.plusConst(1)
+			if len(top.terms) == 1 && top.k == 0 {
+				for t, cf := range top.terms {
+					if cf == 1 {
+						if l := lenOf(top.atoms[t]); l != nil {
+							return l
+						}
+					}
+				}
+			}
+		}
+	}
 	return nil
 }
 
